@@ -245,10 +245,12 @@ def months2days(year: int, month: int, months_delta: int) -> int:
 
 
 def round_number(value: Union[float, int, Decimal]) -> Union[float, int, Decimal]:
-    if math.isnan(value) or math.isinf(value):
+    if isinstance(value, int) or math.isnan(value) or math.isinf(value):
         return value
 
     number = Decimal(value)
+    if number.as_tuple().exponent >= 0:  # type: ignore[operator]
+        return value
     if number > 0:
         return type(value)(number.quantize(Decimal('1'), rounding='ROUND_HALF_UP'))
     else:
